@@ -57,11 +57,31 @@ def cell_accesses(ps):
 
 
 def reported_list(p):
-    """the list handed to sorted() in the returned query(sorted(R))"""
+    """the list R in the returned query(sorted(R)) / query(R)"""
     rv = p.exit[1]
     if rv[0] == "call" and len(rv[2]) == 1 and rv[2][0][0] == "call" and rv[2][0][1] == ("g", "sorted") and len(rv[2][0][2]) == 1:
         return rv[2][0][2][0]
+    if rv[0] == "call" and rv[1][0] == "v" and len(rv[2]) == 1 and (rv[2][0][0] == "comp" or (rv[2][0][0] == "newb" and rv[2][0][1] == "list")):
+        return rv[2][0]
     return None
+
+
+def callers_sort(prog) -> bool:
+    """do add_alt / remove_alt / check_alt all hand the query method a sorted list?  (Then a query may rely on the order - results[0] is
+    the minimum; otherwise every query has to be order-independent.)"""
+    slot = ("f", SELF, SLOT, 0)
+    ok = True
+    for n in ("add_alt", "remove_alt", "check_alt"):
+        f = prog.method(CTX, n)
+        for p in paths(prog, CTX, f):
+            if p.exit[0] != "return":
+                continue
+            rv = strip_epochs(p.exit[1])
+            if rv[0] == "call" and rv[1] == ("v", slot) and len(rv[2]) == 1:
+                a = rv[2][0]
+                if not (a[0] == "call" and a[1] == ("g", "sorted") and not a[3]):
+                    ok = False
+    return ok
 
 
 def reported_value(p, R, lid):
@@ -184,12 +204,14 @@ def check(prog, rep, tier):
             if p.exit[0] != "return":
                 continue
             rv = strip_epochs(p.exit[1])
-            okq = rv[0] == "call" and rv[1] == ("v", slot) and len(rv[2]) == 1 and rv[2][0][0] == "call" and rv[2][0][1] == ("g", "sorted") and not rv[2][0][3]
+            issorted = rv[0] == "call" and rv[1] == ("v", slot) and len(rv[2]) == 1 and rv[2][0][0] == "call" and rv[2][0][1] == ("g", "sorted") and not rv[2][0][3]
+            # the list may also be handed over as it is, in row order: then the query methods must not rely on an order (judged below and in C06)
+            okq = issorted or (rv[0] == "call" and rv[1] == ("v", slot) and len(rv[2]) == 1 and reported_list(p) is not None)
             if not okq:
                 rep.bad("C02.returns-query", f"{CTX}.{n}", f"return {nshow(rv)}", f"{n} returns {nshow(rv)}, not query_method(sorted(row values))", f.where(p.exit[2]))
                 good = False
                 break
-            arg = p.exit[1][2][0][2][0]
+            arg = p.exit[1][2][0][2][0] if issorted else p.exit[1][2][0]
             if n == "check_alt":
                 okarg = False
                 if arg[0] == "comp" and len(arg[3]) == 1 and not arg[3][0][3]:
@@ -229,8 +251,14 @@ def check(prog, rep, tier):
     mq = prog.method(CTX, "__min_query")
     mps = paths(prog, CTX, mq)
     rv = {strip_epochs(p.exit[1]) for p in mps if p.exit[0] == "return"}
-    if rv == {("sub", ("p", "results"), C(0), 0)}:
-        rep.ok("C02.returns-query", "__min_query returns results[0]")
+    min_of = ("call", ("g", "min"), (("p", "results"),), ())
+    if rv == {min_of}:
+        rep.ok("C02.returns-query", "__min_query returns min(results)")
+    elif rv == {("sub", ("p", "results"), C(0), 0)} and callers_sort(prog):
+        rep.ok("C02.returns-query", "__min_query returns results[0] of the sorted list every caller hands over")
+    elif rv == {("sub", ("p", "results"), C(0), 0)}:
+        rep.bad("C02.returns-query", f"{CTX}.__min_query", "results[0] of an unsorted list",
+                "the min query returns element 0 of the list it is given, and not every caller sorts that list any more: the estimate is the counter of row 0, not the minimum", mq.where())
     else:
         rep.bad("C02.returns-query", f"{CTX}.__min_query", f"returns {sorted(nshow(x) for x in rv)}", "the min query does not return element 0 of the sorted list", mq.where())
     init = prog.method(CTX, "__init__")
@@ -245,10 +273,17 @@ def check(prog, rep, tier):
         rep.bad("C02.returns-query", f"{CTX}.__init__", "default query", "the constructor does not install the min query as default", init.where())
 
 
-from ..selftest import Mutant, del_stmt, insert_stmt, replace_expr, replace_stmt
+from ..selftest import Mutant, del_stmt, insert_stmt, replace_expr, replace_stmt, seq
 
 _CM = "countminsketch/countminsketch.py"
 MUTANTS = [
+    Mutant("add_alt hands the row values over unsorted while the min query still takes element 0", _CM,
+           replace_expr("CountMinSketch", "add_alt", "sorted(vals)", "vals"), rule="C02.returns"),
+    Mutant("no caller sorts any more and the min query is min(results) (same estimates)", _CM, seq(
+        replace_expr("CountMinSketch", "add_alt", "sorted(vals)", "vals"),
+        replace_expr("CountMinSketch", "remove_alt", "sorted(vals)", "vals"),
+        replace_expr("CountMinSketch", "check_alt", "sorted([self._bins[i] for i in bins])", "[self._bins[i] for i in bins]"),
+        replace_expr("CountMinSketch", "__min_query", "results[0]", "min(results)")), expect="silent"),
     Mutant("check_alt stride i * depth", _CM, replace_expr("CountMinSketch", "check_alt", "i * self.width", "i * self.depth"), rule="C02.address"),
     Mutant("remove_alt modulus width-1", _CM, replace_expr("CountMinSketch", "remove_alt", "v % self.width", "v % (self.width - 1)"), rule="C02.address"),
     Mutant("add_alt: all three use row 0 only", _CM, replace_expr("CountMinSketch", "add_alt", "i * self.width", "0 * self.width"), rule="C02.address"),
